@@ -42,6 +42,10 @@ class C11(GenericModelFamily):
         for i in (summ.get("panics") or [])[:3]:
             ctx.violation({"family": self.correspondence, "case_index": i, "case": lines[i],
                            "violated_clause": "authorize panicked"}, True)
+        for i in (summ.get("cases_whose_derived_facts_vary") or [])[:5]:
+            ctx.violation({"family": "direct oracle: the facts (with origins) an authorizer holds after a clean run are the same in every rebuild",
+                           "case_index": i, "case": lines[i] if i < len(lines) else None,
+                           "violated_clause": "what queries observe depends on the hash seed / insertion order"}, True)
         if kreal and not real:
             ctx.violation({"theorem_or_correspondence": "in-kernel replay disagrees with extracted model",
                            "kernel_bad": kreal[:10]}, False)
